@@ -203,8 +203,10 @@ func BuildBase(name string, prep func(w *engine.World, ctx sdk.Context, info map
 }
 
 // lastCommit: all three genesis validators signed the previous block (powers = bonded tokens / 10^6).
-func lastCommit() abci.CommitInfo {
-	powers := []int64{100, 1, 99}
+func lastCommit(powers ...int64) abci.CommitInfo {
+	if len(powers) == 0 {
+		powers = []int64{100, 1, 99}
+	}
 	var votes []abci.VoteInfo
 	for i, v := range bandtesting.Validators {
 		votes = append(votes, abci.VoteInfo{Validator: abci.Validator{Address: v.PubKey.Address(), Power: powers[i]}, BlockIdFlag: cmtproto.BlockIDFlagCommit})
@@ -272,8 +274,9 @@ type Deviation struct {
 
 // Block is one block of a path.
 type Block struct {
-	Txs []*TxGen
-	Dt  time.Duration // 0 = 3 s
+	Txs    []*TxGen
+	Dt     time.Duration // 0 = 3 s
+	Powers []int64       // voting powers of the three validators in the block's last commit (nil = 100,1,99)
 }
 
 func signTx(app *band.BandApp, g *TxGen, info map[string]any, seqBump map[string]uint64) ([]byte, error) {
@@ -346,7 +349,7 @@ func runPath(base *Base, blocks []Block, dev Deviation, record bool, pre func(ap
 			}()
 			st.active = true
 			out, err = app.FinalizeBlock(&abci.RequestFinalizeBlock{Height: h, Time: t, Txs: txs, Hash: blockHash(h),
-				DecidedLastCommit: lastCommit(), ProposerAddress: bandtesting.Validators[int(h)%len(bandtesting.Validators)].PubKey.Address()})
+				DecidedLastCommit: lastCommit(blk.Powers...), ProposerAddress: bandtesting.Validators[int(h)%len(bandtesting.Validators)].PubKey.Address()})
 		}()
 		if err != nil {
 			res.Halt = fmt.Sprintf("FinalizeBlock height %d (block %d of path): %v", h, bi, err)
